@@ -478,10 +478,34 @@ class Checker:
             self.ctx.note_max("worst_lu_error_over_cond", e / max(1.0, S.cond_w))
             if not e <= tol:
                 self.vio(S, "lu", "solution_wrong", "lu(A, rhs[%s]) differs from the manufactured f: rel %.3e > %.1e (= 1e-11 cond)" % (cfg["rhs"], e, tol), cid, cfg, {"rel_error": e})
+        _items = rhs if isinstance(rhs, (list, tuple)) else [rhs]
+        _was_dual = [g.representation == "dual" for g in _items]
+
+        def snap(r):
+            # the data the right-hand side was defined by (projections resp. coefficients), whatever representation it is in later
+            return [np.array(g._projections if d else g._coefficients, copy=True) for g, d in zip(_items, _was_dual)]
+
         fac = api.compute_lu_factors(S.A)
+        before = snap(rhs)
         sol2 = api.lu(S.A, rhs, lu_factor=fac)
         self.ctx.count("solves_lu_factor")
         x2 = self.unpack(S, sol2, "lu_factor", cid, cfg)
+        # multi-step sequence: the right-hand side is an input (it must come back unchanged), a further solve with the SAME
+        # right-hand side object must still solve the stated system, and the first solution must not be aliased by later solves
+        after = snap(rhs)
+        if any(a.shape != b.shape or not np.array_equal(a, b) for a, b in zip(before, after)):
+            self.vio(S, "lu_factor", "right_hand_side_modified", "lu(A, rhs, lu_factor=...) changed the data of its right-hand side grid function(s)", cid, cfg)
+        x2_first = None if x2 is None else np.array(x2, copy=True)
+        sol3 = api.lu(S.A, rhs, lu_factor=fac)
+        x3 = self.unpack(S, sol3, "lu_factor", cid, cfg)
+        if x3 is not None:
+            e3 = relerr(x3, c)
+            if not e3 <= tol:
+                self.vio(S, "lu_factor", "second_solve_wrong", "a second lu(A, rhs, lu_factor=...) with the same right-hand side object differs from f: rel %.3e" % e3, cid, cfg, {"rel_error": e3})
+        if x2_first is not None:
+            x2_again = self.unpack(S, sol2, "lu_factor", cid, cfg)
+            if x2_again is not None and not np.array_equal(x2_again, x2_first):
+                self.vio(S, "lu_factor", "solution_aliased", "the solution returned by the first solve changed when another solve was run", cid, cfg)
         if S.asym > 1e-3:
             self.stats["lu_factor_nonsym"] += 1
         if x2 is not None:
@@ -523,11 +547,18 @@ class Checker:
         kw = dict(tol=tol, maxiter=cfg["maxiter"], use_strong_form=strong, return_residuals=cfg["rr"], return_iteration_count=cfg["ric"])
         if solver == "gmres":
             kw["restart"] = cfg["restart"]
+        _items = rhs if isinstance(rhs, (list, tuple)) else [rhs]
+        _was_dual = [g.representation == "dual" for g in _items]
+        _before = [np.array(g._projections if d else g._coefficients, copy=True) for g, d in zip(_items, _was_dual)]
         self.spy.begin()
         out = getattr(api, solver)(S.A, rhs, **kw)
         recs = self.spy.end()
         self.ctx.count("solves_" + solver)
         V = lambda sym, msg, extra=None: self.vio(S, solver, sym, msg, cid, cfg, extra, strong=strong)  # noqa: E731
+        # the right-hand side is an input: its defining data (projections resp. coefficients it was built from) must not change
+        _after = [np.array(g._projections if d else g._coefficients) for g, d in zip(_items, _was_dual)]
+        if any(a.shape != b.shape or not np.array_equal(a, b) for a, b in zip(_before, _after)):
+            V("right_hand_side_modified", "%s changed the data of its right-hand side grid function(s)" % solver)
         want_len = 2 + int(cfg["rr"]) + int(cfg["ric"])
         if not isinstance(out, tuple) or len(out) != want_len:
             V("return_arity", "expected a %d-tuple (solution, info%s%s), got %s" % (want_len, ", residuals" if cfg["rr"] else "", ", iteration_count" if cfg["ric"] else "",
